@@ -79,9 +79,12 @@ PROPS['C12'] = {
     'units': ['C12/fai'],
     'kani': [],
     'oracle': 'C12',
-    'decided': ['IndexedReader::{seek_to, read_line, read_into_buffer}: Ok => the buffer holds exactly stop-start bytes, byte j being the file byte at the offset of base start+j, for every fragmentation of fill_buf; stop > len or start > stop => Err; a truncated file gives Err (never short data); the read loop terminates'],
-    'undecided': ['fetch/fetch_by_rid/read/read_iter plumbing and the byte iterator (IndexedReaderIterator) are not yet under contract', 'Index::new (csv/serde), name lookup'],
-    'trusted': ['io::BufReader model: fill_buf returns ANY non-empty prefix of the remaining bytes (all fragmentations), consume, seek(Start)', 'io::Error::new opaque', 'cmp::min std spec'],
+    'decided': ['fetch_by_rid / fetch_all_by_rid / idx_by_rid: unknown record numbers are errors, otherwise exactly (record, start, stop) is remembered, the file is untouched (consecutive fetches independent: the state is overwritten)',
+                'read (buffer path) = seek_to + read_line loop: reading without a fetch is an error; Ok => the buffer holds exactly stop-start bytes, byte j being the file byte at the offset of base start+j, for every fragmentation of fill_buf and any line length / terminator width; stop > len or start > stop => Err; a truncated file gives Err (never short or shifted data); the loop terminates',
+                'read_iter (iterator path) = read_into_iter + fill_buffer + next: the iterator yields base start, start+1, ..., stop-1 (each the file byte at that base offset) and then None; a read error is reported once and exhausts the iterator'],
+    'undecided': ['fetch / fetch_all by NAME and Index::new (HashMap<String,_> lookup, csv/serde parsing)', 'IndexedReader::new/with_index/from_file constructors', 'size_hint'],
+    'trusted': ['io::BufReader model: fill_buf returns ANY non-empty prefix of the remaining bytes (all fragmentations), consume, seek(Start)', 'io::Error::new opaque', 'cmp::min std spec', 'derived Clone of IndexRecord',
+                'A-cap (one listed assume): the iterator buffer has capacity >= 1 whenever bases remain (Vec::with_capacity / clear keep capacity; vstd has no capacity specs)'],
     'level_text': 'Verus proves the real read path against a reader model that quantifies over every read fragmentation: returned bytes are exactly the requested bases, errors for bad intervals and truncated files, termination.',
     'level_note': 'Trusted: the BufReader model (stub with the same paths), Verus/Z3; index parsing and by-name lookup not covered.',
 }
